@@ -173,8 +173,7 @@ func (m *machine) pickNext(includeSelfFirst bool) *thread {
 				}
 				return en[i].id < en[j].id
 			})
-			k := m.choose(len(en), "schedule")
-			m.recordChoice("sched", "choice", uint64(en[k].id))
+			k := m.chooseRec(len(en), "sched")
 			return en[k]
 		}
 		if !m.fireNextTimer() {
@@ -620,8 +619,7 @@ func (m *machine) selectOp(cases []selCase, blocking bool) (int, value, bool) {
 	}
 	k := 0
 	if len(r) > 1 {
-		k = m.choose(len(r), "select")
-		m.recordChoice("select", "choice", uint64(r[k]))
+		k = m.chooseRec(len(r), "select")
 	}
 	i := r[k]
 	sc := cases[i]
